@@ -85,6 +85,25 @@ class Universe:
         return isinstance(k, tuple) and k[0] == "origin" and k[1] in RAMP_KINDS
 
 
+_REORDER_CLASSES = {}
+
+
+def as_reordering_subclass(o):
+    """User-defined subclass whose step_dynamics returns the library's next states in REVERSED key order (the contract is
+    a dictionary keyed by state name; nothing is said about the order of its keys)."""
+    cls = type(o)
+    if not hasattr(cls, "step_dynamics"):
+        return as_user_subclass(o)
+    sub = _REORDER_CLASSES.get(cls)
+    if sub is None:
+        def step_dynamics(self, *a, **k):
+            d = cls.step_dynamics(self, *a, **k)
+            return dict(reversed(list(d.items())))
+        sub = _REORDER_CLASSES[cls] = type("Reordering" + cls.__name__, (cls,), {"__slots__": (), "step_dynamics": step_dynamics})
+    o.__class__ = sub
+    return o
+
+
 PROBE_LOG = []  # (class name, method name, engine object received) of every call made on a probe element
 _PROBE_CLASSES = {}
 
